@@ -158,6 +158,11 @@ fn respond(line: &str) -> Option<String> {
         ["run", src, stdin, w, r, _steps] => {
             Some(run(&unx(src)?, unx_bytes(stdin)?, optional_index(w)?, optional_index(r)?))
         }
+        // implementation-only (the model has no counterpart): what `rrss parse` is specified to print
+        ["debugtree", src] => Some(match parse(&unx(src)?) {
+            Ok(program) => format!("ok {}", xhex(&format!("{:#?}\n", program))),
+            Err(_) => "err".to_string(),
+        }),
         ["lint", src] => Some(lint(&unx(src)?)),
         ["fold", src] => fold(&unx(src)?),
         ["walk", src, f] => walk_request(&unx(src)?, optional_index(f)?),
